@@ -127,8 +127,20 @@ def contents(rng, case: Case, S, world: str) -> dict:
 
 
 def is_dup_blocker(out: str, err: str, rc: int) -> bool:
-    lines = [l.strip() for l in (out + "\n" + err).splitlines() if l.strip() and ": note:" not in l]
+    lines = [l.strip() for l in (out + "\n" + err).splitlines() if l.strip() and ": note:" not in l
+             and not _SUMMARY.match(l.strip())]
     return rc == 2 and len(lines) >= 1 and all("Duplicate module named" in l for l in lines)
+
+
+import re
+
+_SUMMARY = re.compile(r"^(Found \d+ errors? in \d+ files? \(|Success: no issues found in )")
+
+
+def n_checked(out: str):
+    """the N of "(checked N source files)" / "no issues found in N source files"; None when mypy stopped early"""
+    m = re.search(r"checked (\d+) source files?\)", out) or re.search(r"no issues found in (\d+) source files?", out)
+    return int(m.group(1)) if m else None
 
 
 def diag(out: str, err: str, cwd: str | None = None, root: str | None = None) -> list:
@@ -137,7 +149,7 @@ def diag(out: str, err: str, cwd: str | None = None, root: str | None = None) ->
     res = set()
     for l in (out + "\n" + err).splitlines():
         l = l.strip()
-        if not l or ": note:" in l:
+        if not l or ": note:" in l or _SUMMARY.match(l):
             continue
         if cwd is not None and ":" in l:
             path, rest = l.split(":", 1)
@@ -193,23 +205,24 @@ def check(ctx, runner, case: Case, world: str, kind: str, mv=None):
 
     runs = {}
     argv = [os.path.relpath(layout._abs(cliworld, a), cwd) for a in case.args]
-    runs["args"] = (argv, runner.run(cwd, fl, argv, env))
+    runs["args"] = (argv, runner.run(cwd, fl, argv, env, summary=True))
     listed = [rel(p) for p, _ in S]
     for i, o in enumerate(orders_of(listed)):
-        runs["files%d" % i] = (o, runner.run(cwd, fl, o, env))
+        runs["files%d" % i] = (o, runner.run(cwd, fl, o, env, summary=True))
     sfiles = set((p, m) for p, m in S)
     pfiles = set((p, m) for p, m in P if not p.endswith(":d"))
     comparable = dup is None and sfiles == pfiles
     if comparable:
         argv_p = [x for t in tops for x in ("-p", t)]
-        runs["pkg"] = (argv_p, runner.run(cwd, fl, argv_p, env))
+        runs["pkg"] = (argv_p, runner.run(cwd, fl, argv_p, env, summary=True))
     ctx.count("case_cli_invocations", len(runs))
     ctx.dist("case_cli_kind", kind)
     ctx.dist("case_cli_model_outcome", "duplicate" if dup else ("sources+pkg" if comparable else "sources"))
     detail = {"case": case.to_json(), "flags": fl, "MYPYPATH": [p for p in case.mypy_path], "cwd": case.cwd or ".",
               "file_contents": texts, "model": {"sources": [(rel(p), m) for p, m in S], "duplicate": dup,
                                                 "pkg": [(p.replace(world, "<W>"), m) for p, m in P]},
-              "runs": {n: {"argv": a, "exit": r[2], "output": diag(r[0], r[1], cwd, cliworld)} for n, (a, r) in runs.items()},
+              "runs": {n: {"argv": a, "exit": r[2], "checked_sources": n_checked(r[0]),
+                           "output": diag(r[0], r[1], cwd, cliworld)} for n, (a, r) in runs.items()},
               "how": "./check C18 --replay <this file>  (writes the files, runs the listed invocations)"}
     crashed = [n for n, (_, r) in runs.items() if r[2] == 3 or "INTERNAL ERROR" in r[0] + r[1]]
     if crashed:
@@ -236,6 +249,14 @@ def check(ctx, runner, case: Case, world: str, kind: str, mv=None):
             n = twice[0]
             return ("found-twice", "`mypy %s` stops with %s although every file is imported by the module name it "
                     "is listed under" % (" ".join(runs[n][0]), diag(*runs[n][1][:2])[:1]), detail)
+    # the number of build sources mypy reports ("checked N source files") is the size of the model's listing
+    for n, (a, r) in runs.items():
+        got = n_checked(r[0])
+        want = len(P) if n == "pkg" else len(S)
+        if got is not None and got != want:
+            return ("wrong-number-of-sources",
+                    "`mypy %s` checked %d source files, the listing has %d (%s)"
+                    % (" ".join(a), got, want, "find_modules_recursive" if n == "pkg" else "create_source_list"), detail)
     base = diag(*runs["args"][1][:2], cwd, cliworld)
     differing = [n for n, (_, r) in runs.items() if diag(r[0], r[1], cwd, cliworld) != base]
     if differing:
@@ -259,7 +280,7 @@ def replay(ctx, runner, det: dict) -> None:
     os.makedirs(cwd, exist_ok=True)
     env = {"MYPYPATH": os.pathsep.join(layout._abs(cliworld, p) for p in case.mypy_path)} if case.mypy_path else {}
     for n, r in det["runs"].items():
-        out, err, rc = runner.run(cwd, det["flags"], r["argv"], env)
-        print("%-7s mypy %s  -> exit %d" % (n, " ".join(det["flags"] + r["argv"]), rc))
+        out, err, rc = runner.run(cwd, det["flags"], r["argv"], env, summary=True)
+        print("%-7s mypy %s  -> exit %d, checked %s source files" % (n, " ".join(det["flags"] + r["argv"]), rc, n_checked(out)))
         for l in diag(out, err):
             print("          " + l)
